@@ -131,6 +131,7 @@ def repo_universe(maxsize: int, atoms=ATOMS, unary=UNARY, binary=BINARY, extra_m
     if extra_meta:
         by[1] = by[1] + [P.MetaVar(0, e_fresh=(P.EVar(0),)), P.MetaVar(1, s_fresh=(P.SVar(0),)),
                          P.MetaVar(2, positive=(P.SVar(0),)), P.MetaVar(2, negative=(P.SVar(0),)),
+                         P.MetaVar(0, app_ctx_holes=(P.EVar(1),)),
                          P.Instantiate(P.Implies(P.MetaVar(0), P.MetaVar(1)), frozendict({0: P.EVar(0)})),
                          P.Instantiate(P._and(P.MetaVar(0), P.MetaVar(2)), frozendict({0: P.MetaVar(1)})),
                          P.Instantiate(P._and(P.MetaVar(0), P.MetaVar(1)), frozendict({1: P.Symbol('s0')})),
